@@ -277,4 +277,34 @@ theorem floodRun_ok (shape : List Nat) (nb : List (List Int)) (fuel : Nat) (av :
       · simp only [List.length_cons]; omega
       · simp only [List.length_cons]; omega
 
+theorem regScan_ok (shape : List Nat) (nb : List (List Int)) (witness : List Int → Array Bool → Bool) :
+    ∀ (ps : List (List Int)) (av : Array Bool), (∀ p ∈ ps, inside shape p = true) →
+      pAllOk (regScan shape nb witness ps av).1 = true ∧ (regScan shape nb witness ps av).2.1 = true := by
+  intro ps
+  induction ps with
+  | nil => intro av _; simp [regScan, pAllOk]
+  | cons p ps ih =>
+    intro av hin
+    have hp : inside shape p = true := hin p List.mem_cons_self
+    have hps : ∀ q ∈ ps, inside shape q = true := fun q hq => hin q (List.mem_cons_of_mem _ hq)
+    have hprobe : pAllOk (PAcc.mk p shape :: visitAccesses shape nb p) = true := by
+      rw [pAllOk_iff]
+      intro a ha
+      rcases List.mem_cons.mp ha with rfl | ha
+      · exact hp
+      · exact (pAllOk_iff _).mp (visitAccesses_ok shape nb p) a ha
+    simp only [regScan]
+    split
+    · split
+      · obtain ⟨f1, f2, -, -⟩ := floodRun_ok shape nb (1 + cntTrue (av.setIfInBounds (ravelI shape p) false))
+          (av.setIfInBounds (ravelI shape p) false) [p] (by simp)
+        obtain ⟨t1, t2⟩ := ih (floodRun shape nb (1 + cntTrue (av.setIfInBounds (ravelI shape p) false))
+          (av.setIfInBounds (ravelI shape p) false) [p]).2.2.2.2 hps
+        refine ⟨?_, by simp only [f2, t2]; rfl⟩
+        rw [pAllOk_append, pAllOk_append]
+        exact ⟨⟨hprobe, f1⟩, t1⟩
+      · obtain ⟨t1, t2⟩ := ih av hps
+        exact ⟨(pAllOk_append _ _).mpr ⟨hprobe, t1⟩, t2⟩
+    · exact ih av hps
+
 end Mahotas.C10Flood
